@@ -21,7 +21,7 @@ import (
 )
 
 type c18Mut struct {
-	Kind string `json:"kind"` // none | byte | insert | delete | sigswap | unhashed | dupheader | addheader | swaplines
+	Kind string `json:"kind"` // none | byte | insert | delete | sigswap | unhashed | mpibits | pktlen | oldformat | len5 | mpizero | dupheader | addheader | swaplines
 	Pos  int    `json:"pos,omitempty"`
 	Xor  byte   `json:"xor,omitempty"`
 }
@@ -147,47 +147,114 @@ func c18AddUnhashed(encSig []byte) ([]byte, error) {
 	return append(enc, '\n'), nil
 }
 
-// c18Core is the decoded signature with the unhashed subpacket area of the OpenPGP v4 signature packet emptied and the
-// packet length re-encoded: the part of the signature that verification reads. Anything that does not have the
-// expected framing is its own core.
-func c18Core(decoded string) string {
+// c18Sig is the framing of a v1 signature: format byte, OpenPGP packet header, v4 signature body.
+type c18Sig struct {
+	form     string // header form: new1 new2 new5 old1 old2 old4
+	declared int    // body length the header declares
+	body     []byte // what is there (may be shorter than declared)
+	u        int    // offset of the unhashed length field in body
+	unhashed int    // length of the unhashed subpacket area
+	bitlen   int    // declared bit length of the RSA signature MPI
+	mpi      []byte // MPI bytes
+}
+
+// c18Parse recognises the shapes of a signature that packet.Read + snapd's trailing-data check tolerate (found by
+// experiment, see notes/C18.md): any header form, a declared length >= what is there, exactly one MPI up to the end.
+func c18Parse(decoded string) (c18Sig, bool) {
 	raw := []byte(decoded)
-	if len(raw) < 12 || raw[0] != 0x1 || raw[1] != 0xC2 {
-		return decoded
+	var g c18Sig
+	if len(raw) < 12 || raw[0] != 0x1 {
+		return g, false
 	}
-	var hdr, blen int
+	h := 0
 	switch {
-	case raw[2] < 192:
-		hdr, blen = 3, int(raw[2])
-	case raw[2] < 224:
-		hdr, blen = 4, (int(raw[2])-192)<<8+int(raw[3])+192
+	case raw[1] == 0xC2 && raw[2] < 192:
+		g.form, h, g.declared = "new1", 3, int(raw[2])
+	case raw[1] == 0xC2 && raw[2] < 224:
+		g.form, h, g.declared = "new2", 4, (int(raw[2])-192)<<8+int(raw[3])+192
+	case raw[1] == 0xC2 && raw[2] == 255:
+		g.form, h, g.declared = "new5", 7, int(raw[3])<<24|int(raw[4])<<16|int(raw[5])<<8|int(raw[6])
+	case raw[1] == 0x88:
+		g.form, h, g.declared = "old1", 3, int(raw[2])
+	case raw[1] == 0x89:
+		g.form, h, g.declared = "old2", 4, int(raw[2])<<8|int(raw[3])
+	case raw[1] == 0x8A:
+		g.form, h, g.declared = "old4", 6, int(raw[2])<<24|int(raw[3])<<16|int(raw[4])<<8|int(raw[5])
 	default:
+		return g, false
+	}
+	if h+8 > len(raw) {
+		return g, false
+	}
+	g.body = raw[h:]
+	if g.declared < len(g.body) || g.body[0] != 4 {
+		return g, false
+	}
+	hashedLen := int(g.body[4])<<8 | int(g.body[5])
+	g.u = 6 + hashedLen
+	if g.u+2 > len(g.body) {
+		return g, false
+	}
+	g.unhashed = int(g.body[g.u])<<8 | int(g.body[g.u+1])
+	m := g.u + 2 + g.unhashed + 2 // after the hash tag
+	if m+2 > len(g.body) {
+		return g, false
+	}
+	g.bitlen = int(g.body[m])<<8 | int(g.body[m+1])
+	g.mpi = g.body[m+2:]
+	if (g.bitlen+7)/8 != len(g.mpi) {
+		return g, false
+	}
+	return g, true
+}
+
+// c18Core is the part of the decoded signature that verification reads: the v4 signature body up to and including the
+// hashed subpackets (version, signature type, algorithms, hashed area), the hash tag and the bytes of the MPI. Left out:
+// the packet header (form and declared length), the unhashed subpacket area and the MPI's bit-length field. Anything that
+// does not parse is its own core.
+func c18Core(decoded string) string {
+	g, ok := c18Parse(decoded)
+	if !ok {
 		return decoded
 	}
-	body := raw[hdr:]
-	if len(body) != blen || body[0] != 4 {
-		return decoded
+	out := append([]byte("core:"), g.body[:g.u]...)
+	out = append(out, g.body[g.u+2+g.unhashed:g.u+2+g.unhashed+2]...)
+	return string(append(out, g.mpi...))
+}
+
+// c18SigChange names how a decoded signature with the same core differs from the genuine one.
+func c18SigChange(decoded, genuine string) string {
+	if decoded == genuine {
+		return "none"
 	}
-	hashedLen := int(body[4])<<8 | int(body[5])
-	u := 6 + hashedLen
-	if u+2 > len(body) {
-		return decoded
+	if c18Core(decoded) != c18Core(genuine) {
+		return "core"
 	}
-	unhashedLen := int(body[u])<<8 | int(body[u+1])
-	if u+2+unhashedLen > len(body) {
-		return decoded
+	g, _ := c18Parse(decoded)
+	g0, _ := c18Parse(genuine)
+	switch {
+	case g.unhashed != g0.unhashed:
+		return "unhashed"
+	case g.form != g0.form:
+		return "packet-header-form"
+	case g.declared != g0.declared:
+		return "packet-length"
+	case g.bitlen != g0.bitlen:
+		return "mpi-bitlength"
 	}
-	nb := append([]byte{}, body[:u]...)
-	nb = append(nb, 0, 0)
-	nb = append(nb, body[u+2+unhashedLen:]...)
-	out := []byte{0x1, 0xC2}
-	if len(nb) < 192 {
-		out = append(out, byte(len(nb)))
-	} else {
-		l := len(nb) - 192
-		out = append(out, byte(l>>8)+192, byte(l))
+	return "other"
+}
+
+// c18Reframe rebuilds the encoded signature from a transformed framing.
+func c18Reframe(encSig []byte, f func(g c18Sig) []byte) []byte {
+	g, ok := c18Parse(c18Decoded(bytes.TrimSpace(encSig)))
+	if !ok {
+		panic("genuine signature does not parse")
 	}
-	return string(append(out, nb...))
+	out := append([]byte{0x1}, f(g)...)
+	enc := make([]byte, base64.StdEncoding.EncodedLen(len(out)))
+	base64.StdEncoding.Encode(enc, out)
+	return append(enc, '\n')
 }
 
 func c18Mutate(encoded []byte, other []byte, m c18Mut) []byte {
@@ -221,6 +288,36 @@ func c18Mutate(encoded []byte, other []byte, m c18Mut) []byte {
 		if err != nil {
 			panic(err)
 		}
+		return append(append(append([]byte{}, content...), '\n', '\n'), ns...)
+	case "mpibits", "pktlen", "oldformat", "len5", "mpizero":
+		// re-encodings of the signature packet that leave everything verification reads unchanged
+		kind := m.Kind
+		ns := c18Reframe(sig, func(g c18Sig) []byte {
+			body := append([]byte{}, g.body...)
+			at := g.u + 2 + g.unhashed + 2 // the MPI bit length
+			hdr := []byte{0xC2, byte(len(body))}
+			switch kind {
+			case "mpibits": // a smaller bit length with the same byte count
+				bl := g.bitlen - 1 - (m.Pos % 6)
+				if (bl+7)/8 != len(g.mpi) {
+					bl = g.bitlen - 1
+				}
+				body[at], body[at+1] = byte(bl>>8), byte(bl)
+			case "pktlen": // the header declares more than there is
+				hdr = []byte{0xC2, byte(len(body) + 1 + m.Pos%8)}
+			case "oldformat":
+				hdr = []byte{0x89, byte(len(body) >> 8), byte(len(body))}
+			case "len5":
+				hdr = []byte{0xC2, 0xFF, 0, 0, byte(len(body) >> 8), byte(len(body))}
+			case "mpizero": // a leading zero byte in the MPI, bit length and packet length adjusted
+				bl := g.bitlen + 8
+				nb := append([]byte{}, body[:at]...)
+				nb = append(nb, byte(bl>>8), byte(bl), 0)
+				body = append(nb, g.mpi...)
+				hdr = []byte{0xC2, byte(len(body))}
+			}
+			return append(hdr, body...)
+		})
 		return append(append(append([]byte{}, content...), '\n', '\n'), ns...)
 	case "dupheader", "addheader", "swaplines":
 		lines := strings.Split(string(content), "\n")
@@ -412,6 +509,11 @@ func c18Exec(in c18In) vh.Out {
 		" in let r0 := " + vh.CoqBytes(core0) + " in CCheck " + vh.CoqList(layers) + " " + clock + " " + vh.CoqBool(derr == nil) + " " + coqA + " (" +
 		"k0, c0, r0) s0 " + vh.CoqBool(accepted) + " " + vh.CoqBool(added) + ")"
 
+	sigChange := "undecodable"
+	if derr == nil {
+		_, es := a.Signature()
+		sigChange = c18SigChange(c18Decoded(bytes.TrimSpace(es)), sig0)
+	}
 	tags := []string{"key:" + in.KeyWhere, "mut:" + in.Mut.Kind, "clock:" + in.ClockMode, "type:" + in.Type}
 	if in.KeyAccount != c18Authority {
 		tags = append(tags, "other-authority")
@@ -429,7 +531,10 @@ func c18Exec(in c18In) vh.Out {
 	} else {
 		tags = append(tags, "rejected")
 	}
-	return vh.Out{Observed: map[string]interface{}{"decoded": derr == nil, "accepted": accepted, "added": added}, Coq: coq,
+	if accepted && sigChange != "none" {
+		tags = append(tags, "accepted-with-sig-change:"+sigChange)
+	}
+	return vh.Out{Observed: map[string]interface{}{"decoded": derr == nil, "accepted": accepted, "added": added, "sig_change": sigChange}, Coq: coq,
 		NonTrivial: in.KeyWhere != "unknown", Tags: tags}
 }
 
@@ -532,7 +637,7 @@ func c18Gen(r *vh.Rand, tier string, n int) []c18In {
 		}
 	}
 	// structural mutations of a valid assertion
-	for _, k := range []string{"sigswap", "unhashed", "dupheader", "addheader", "swaplines"} {
+	for _, k := range []string{"sigswap", "unhashed", "mpibits", "pktlen", "oldformat", "len5", "mpizero", "dupheader", "addheader", "swaplines"} {
 		for p := 0; p < 3; p++ {
 			i = base()
 			i.Mut = c18Mut{Kind: k, Pos: p + 1}
